@@ -464,18 +464,24 @@ def local_memo_hazards(func):
             p = parent(p)
         if not guarded or grouping:
             continue
+        if isinstance(key, ast.Name):
+            # `n = pulse.geobj.n; if n not in d: d[n] = ...`: the key is what the local was bound to
+            ds_ = [x.value for x in walk_no_nested(func.node) if isinstance(x, ast.Assign) and len(x.targets) == 1
+                   and isinstance(x.targets[0], ast.Name) and x.targets[0].id == key.id]
+            if len(ds_) == 1 and isinstance(ds_[0], ast.Attribute):
+                key = ds_[0]
         knames = {x.id for x in ast.walk(key) if isinstance(x, ast.Name)}
         if isinstance(key, ast.Name):
             continue            # keyed by the whole element
+        ktxt = norm(key)
         inside = set()
         # a key that ends in an identifying attribute (`geobj.n`, `pulse.idx`, `w.tag`) stands for its object: the
         # object itself (any receiver prefix of the key) may be used in the value
         prefixes = {ktxt}
         k_ = key
         ident = isinstance(key, ast.Attribute) and key.attr in ('n', 'idx', 'tag', 'id', 'name', 'key', 'number')
-        while ident and isinstance(k_, ast.Attribute):
-            k_ = k_.value
-            prefixes.add(norm(k_))
+        if ident:
+            prefixes.add(norm(key.value))       # `X.n` identifies X (and only X: not what X was reached from)
         for x in ast.walk(st.value):
             if isinstance(x, ast.expr) and norm(x) in prefixes:
                 for y in ast.walk(x):
